@@ -42,6 +42,22 @@ func init() {
 }
 
 func init() {
+	surveyFns["dead"] = func(w *World, arg string) {
+		n := 0
+		for fn := range w.AllFuncs() {
+			if fn.Blocks == nil || !InModule(fn) || strings.HasSuffix(w.RelFile(fn.Pos()), "_test.go") {
+				continue
+			}
+			n++
+			for _, r := range lostWrites(fn) {
+				fmt.Println("LOST", FuncName(fn), w.InstrPos(r.In), r.What)
+			}
+			for _, r := range decidedBranches(fn) {
+				fmt.Println("DECIDED", FuncName(fn), w.InstrPos(r.In), r.What)
+			}
+		}
+		fmt.Println("functions", n)
+	}
 	surveyFns["loops"] = func(w *World, arg string) {
 		_, scope := parserScope(w)
 		kinds := map[string]int{}
